@@ -793,6 +793,14 @@ def c12(req, ra, ctr):
                 fails.append('advertised: posoargs=%s kwoargs=%s on %s advertises %s, expected %s' % (
                     Pn, Wn, core.fmt_params(F3), core.fmt_params(got), core.fmt_params(A)))
         return fails
+    if op == 'deccallst':
+        _, order, Pn, Wn, args, kw, F = req
+        F3 = [(p[0], p[1], p[2]) for p in F]
+        ctr['c12:stacked'] += 1
+        if pok_spec(F3, Pn, Wn) is None and ra != ('err', 'ValueError'):
+            fails.append('inadmissible-accepted: posoargs=%s and kwoargs=%s applied by two stacked decorators (order %s) on %s gave %s '
+                         'instead of ValueError at decoration time' % (Pn, Wn, order, core.fmt_params(F3), ra))
+        return fails
     if op in ('deccall', 'deccallm'):
         _, Pn, Wn, args, kw, F = req
         F3 = [(p[0], p[1], p[2]) for p in F]
